@@ -85,6 +85,13 @@ def lists(ctx: Ctx):
         out.append([{"id": TEMP, "data": lims + [1]}])
         out.append([{"id": 0x0212, "data": [1]}, {"id": TEMP, "data": lims}, {"id": 0x0214, "data": [1]}])
         out.append([{"id": TEMP, "data": [34, 60, 34, 60, 34, 60, 0]}, {"id": TEMP, "data": lims + [0]}])
+    # several empty records (3 bytes each) next to one-byte records only: the announced count is larger than a "4 bytes per record" estimate
+    for n in range(1, 9):
+        emp = [{"id": rng.choice([0x0212, 0x0001, 0x7777, 0x0214]), "data": []} for _ in range(n)]
+        out.append(emp + [{"id": 0x0214, "data": [1]}, {"id": 0x0212, "data": [1]}])
+        out.append([{"id": 0x0214, "data": [1]}] + emp + [{"id": 0x0212, "data": [1]}])
+        out.append([{"id": 0x0218, "data": [1]}, {"id": 0x0212, "data": [1]}] + emp + [{"id": 0x0215, "data": [0]}])
+        out.append(emp + [{"id": 0x0212, "data": [1]}])
     # first page decodes to nothing
     out.append([{"id": 0x7777, "data": [1]}, {"id": 0x004B, "data": [1]}, {"id": 0x0001, "data": []}, {"id": 0x0214, "data": [1]},
                 {"id": 0x0212, "data": [1]}])
@@ -159,7 +166,15 @@ def collect(ctx: Ctx, ls):
 
     shared = AC(ip="10.0.0.1", port=6444, device_id=2)        # ONE object that queries list after list (each time "another unit behind the same address")
 
-    async def fetch_shared(pages):
+    async def fetch_shared(pages, lossy=None):
+        if lossy is not None:                        # first a query whose second page goes unanswered (logged as a warning), then the query proper
+            ac.caps_pages = lossy
+            ac.lose_second_page = True
+            try:
+                await shared.get_capabilities()
+            except Exception:  # noqa: BLE001
+                pass
+            ac.lose_second_page = False
         ac.caps_pages = pages
         try:
             await shared.get_capabilities()
@@ -168,6 +183,22 @@ def collect(ctx: Ctx, ls):
             r = {}
         if shared._lan._protocol:
             shared._lan._disconnect()
+        return r
+
+    async def fetch_after_state(pages, swing):
+        """A fresh object that polled the unit's state (louvers swinging) before it asks for the capabilities."""
+        ac.caps_pages = pages
+        ac.state["swing"] = swing
+        d = AC(ip="10.0.0.1", port=6444, device_id=3)
+        try:
+            await d.refresh()
+            await d.get_capabilities()
+            r = attrs_of(d)
+        except Exception:  # noqa: BLE001
+            r = {}
+        ac.state["swing"] = 0
+        if d._lan._protocol:
+            d._lan._disconnect()
         return r
 
     async def go():
@@ -190,8 +221,14 @@ def collect(ctx: Ctx, ls):
             for at in pts:
                 a, e = await fetch([caps_body(recs[:at], True), caps_body(recs[at:], False)])
                 splits.append({"at": at, "attrs": a, "raised": e})
-            ar = await fetch_shared([caps_body(recs, False)])
-            vectors.append({"recs": recs, "body": B(caps_body(recs, False)), "whole": whole, "singles": singles,
+            if k % 4 == 1 and len(recs) >= 2:
+                at = len(recs) // 2
+                two = [caps_body(recs[:at], True), caps_body(recs[at:], False)]
+                ar = await fetch_shared(two, lossy=two)
+            else:
+                ar = await fetch_shared([caps_body(recs, False)])
+            ast_ = await fetch_after_state([caps_body(recs, False)], [0xC, 0xF, 0x3][k % 3]) if k % 4 == 2 else None
+            vectors.append({"attrsAfterState": ast_ if ast_ and aw else aw,"recs": recs, "body": B(caps_body(recs, False)), "whole": whole, "singles": singles,
                             "attrsWhole": aw, "attrsReuse": ar if ar and aw else aw, "splits": splits, "raised": raised})
 
     vloop.run(loop, go())
